@@ -148,3 +148,134 @@ pub fn hints(cx: &mut Ctx) {
         }
     }
 }
+
+// ---------------------------------------------------------------------------------------------------------------
+/// C13 bounded stand-in for the lazy variable: every construction route x every pattern of forcing the cached
+/// encoding / element (0, 1 or 2 times, either order) before and after every group operation.  Values must equal
+/// the native ones, the system must stay satisfied, and forcing something already forced must add no constraint.
+pub fn lazy(cx: &mut Ctx) {
+    use ark_ec::CurveGroup;
+    type Affine = <Element as CurveGroup>::Affine;
+    let mut elems: Vec<(String, Element)> = Vec::new();
+    for k in [0u64, 1, 2, 3, 7, 12] { elems.push((format!("G*{}", k), Element::GENERATOR * decaf377::Fr::from(k))); }
+    elems.push(("G + (-G) (other representative of the identity)".into(), Element::GENERATOR + (-Element::GENERATOR)));
+    elems.push(("hash(5)".into(), Element::encode_to_curve(&Fq::from(5u64))));
+    let other = Element::GENERATOR * decaf377::Fr::from(5u64);
+    let enc_of = |e: &Element| val(&e.vartime_compress_to_field());
+    for (name, e) in elems.iter() {
+        for route in 0..6u32 {
+            for pre in 0..5u32 {
+                for op in 0..9u32 {
+                    for post in 0..3u32 {
+                        let d = || format!("element {}, route {}, forcing-before {}, op {}, forcing-after {}", name, route, pre, op, post);
+                        let cs = new_cs();
+                        let v: ElementVar = match route {
+                            0 => ElementVar::new_witness(cs.clone(), || Ok(*e)).unwrap(),
+                            1 => <ElementVar as AllocVar<Affine, Fq>>::new_witness(cs.clone(), || Ok(e.into_affine())).unwrap(),
+                            2 => ElementVar::new_input(cs.clone(), || Ok(*e)).unwrap(),
+                            3 => ElementVar::new_constant(cs.clone(), *e).unwrap(),
+                            4 => <ElementVar as AllocVar<Fq, Fq>>::new_witness(cs.clone(), || Ok(e.vartime_compress_to_field())).unwrap(),
+                            _ => { let sv = FqVar::new_witness(cs.clone(), || Ok(e.vartime_compress_to_field())).unwrap(); ElementVar::decompress_from_field(sv).unwrap() }
+                        };
+                        let force = |v: &ElementVar, pat: u32, cx: &mut Ctx, want: &Element| {
+                            match pat {
+                                0 => {}
+                                1 => { let s = v.compress_to_field().unwrap(); cx.eq("forced encoding == native", &d, val(&s.value().unwrap()), enc_of(want)); }
+                                2 => { cx.eq("forced element == native", &d, v.value().unwrap() == *want, true); }
+                                3 => { let s = v.compress_to_field().unwrap(); cx.eq("forced encoding == native", &d, val(&s.value().unwrap()), enc_of(want));
+                                       cx.eq("forced element == native", &d, v.value().unwrap() == *want, true);
+                                       let n0 = cs.num_constraints();
+                                       let s2 = v.compress_to_field().unwrap(); let _ = v.value().unwrap();
+                                       cx.eq("forcing twice: same encoding", &d, val(&s2.value().unwrap()), enc_of(want));
+                                       cx.eq("forcing twice: no new constraints", &d, cs.num_constraints(), n0); }
+                                _ => { cx.eq("forced element == native", &d, v.value().unwrap() == *want, true);
+                                       let s = v.compress_to_field().unwrap(); cx.eq("forced encoding == native", &d, val(&s.value().unwrap()), enc_of(want)); }
+                            }
+                        };
+                        force(&v, pre, cx, e);
+                        let ov = ElementVar::new_witness(cs.clone(), || Ok(other)).unwrap();
+                        let (w, want): (ElementVar, Element) = match op {
+                            0 => (v.clone(), *e),
+                            1 => (v.double().unwrap(), *e + *e),
+                            2 => { let mut t = v.clone(); t.double_in_place().unwrap(); (t, *e + *e) }
+                            3 => (v.negate().unwrap(), -*e),
+                            4 => (v.clone() + ov.clone(), *e + other),
+                            5 => (v.clone() - &ov, *e - other),
+                            6 => { let mut t = v.clone(); t += &ov; t -= ov.clone(); t += other; (t, *e + other) }
+                            7 => (ElementVar::conditionally_select(&Boolean::constant(pre % 2 == 0), &v, &ov).unwrap(), if pre % 2 == 0 { *e } else { other }),
+                            _ => { let bits: Vec<Boolean<Fq>> = [true, true, false, true].iter().map(|b| Boolean::new_witness(cs.clone(), || Ok(*b)).unwrap()).collect();
+                                   (v.scalar_mul_le(bits.iter()).unwrap(), *e * decaf377::Fr::from(11u64)) }
+                        };
+                        force(&w, [0u32, 3, 4][post as usize], cx, &want);
+                        cx.eq("result encoding == native", &d, val(&w.compress_to_field().unwrap().value().unwrap()), enc_of(&want));
+                        cx.eq("result element == native", &d, w.value().unwrap() == want, true);
+                        // the operand is unchanged by whatever was done to its clone
+                        cx.eq("operand encoding unchanged", &d, val(&v.compress_to_field().unwrap().value().unwrap()), enc_of(e));
+                        cx.eq("operand element unchanged", &d, v.value().unwrap() == *e, true);
+                        let eqv = v.is_eq(&w).unwrap();
+                        cx.eq("is_eq == native equality", &d, eqv.value().unwrap(), *e == want);
+                        cx.eq("honest synthesis is satisfied", &d, cs.is_satisfied().unwrap(), true);
+                    }
+                }
+            }
+        }
+    }
+}
+
+/// C14 bounded stand-in for witnessed coordinates: a malicious prover offers arbitrary coordinate pairs through both
+/// `AllocVar<AffinePoint>` and `AllocVar<Element>` (Witness mode).  Pairs outside the image of the group (off the
+/// curve, or on the curve but outside 2E) must leave the system unsatisfied; other representatives of a group
+/// element must yield a variable equal to that element.
+pub fn alloc(cx: &mut Ctx) {
+    use ark_ec::{twisted_edwards::{Affine as TEA, Projective as TEP}, AffineRepr, CurveGroup};
+    type AffinePoint = <Element as CurveGroup>::Affine;
+    type Cfg = <AffinePoint as AffineRepr>::Config;
+    let f = fq();
+    let qq = q();
+    let aff = |x: &N, y: &N| -> AffinePoint { let raw: TEA<Cfg> = TEA::<Cfg>::new_unchecked(fq_of(x), fq_of(y)); unsafe { core::mem::transmute::<TEA<Cfg>, AffinePoint>(raw) } };
+    let proj = |x: &N, y: &N, z: &N| -> Element {
+        let raw: TEP<Cfg> = TEP::<Cfg>::new_unchecked(fq_of(&f.mul(x, z)), fq_of(&f.mul(y, z)), fq_of(&f.mul(&f.mul(x, y), z)), fq_of(z));
+        unsafe { core::mem::transmute::<TEP<Cfg>, Element>(raw) } };
+    let i = f.sqrt(&(&qq - n(1)));
+    let mut cases: Vec<(String, N, N, Option<Element>)> = Vec::new();
+    cases.push(("4-torsion point (i, 0)".into(), i.clone(), n(0), None));
+    cases.push(("4-torsion point (-i, 0)".into(), f.neg(&i), n(0), None));
+    cases.push(("off-curve (0, 0)".into(), n(0), n(0), None));
+    cases.push(("off-curve (1, 1)".into(), n(1), n(1), None));
+    for k in [1u64, 2, 3, 5, 8] {
+        let e = Element::GENERATOR * decaf377::Fr::from(k);
+        let a = e.into_affine();
+        let (x, y) = a.xy().map(|(x, y)| (val(x), val(y))).unwrap();
+        // (x, y) + (i, 0) = (i*y, i*x) for a = -1
+        cases.push((format!("G*{} + (i, 0): on the curve, outside the group", k), f.mul(&i, &y), f.mul(&i, &x), None));
+        cases.push((format!("G*{} + (-i, 0): on the curve, outside the group", k), f.neg(&f.mul(&i, &y)), f.neg(&f.mul(&i, &x)), None));
+        cases.push((format!("off-curve (2x, 2y) of G*{}", k), f.add(&x, &x), f.add(&y, &y), None));
+        cases.push((format!("off-curve (x, y + 1) of G*{}", k), x.clone(), f.add(&y, &n(1)), None));
+        cases.push((format!("G*{} itself", k), x.clone(), y.clone(), Some(e)));
+        cases.push((format!("G*{} + (0, -1): the other representative", k), f.neg(&x), f.neg(&y), Some(e)));
+    }
+    cases.push(("identity (0, 1)".into(), n(0), n(1), Some(Element::default())));
+    cases.push(("identity's other representative (0, -1)".into(), n(0), &qq - n(1), Some(Element::default())));
+    for (name, x, y, want) in cases.iter() {
+        for entry in 0..3u32 {
+            let d = || format!("offered coordinates: {} = ({}, {}), entry point {}", name, x, y, ["AllocVar<AffinePoint>::new_witness", "AllocVar<Element>::new_witness (Z = 1)", "AllocVar<Element>::new_witness (Z = 7)"][entry as usize]);
+            let cs = new_cs();
+            let r = match entry {
+                0 => <ElementVar as AllocVar<AffinePoint, Fq>>::new_witness(cs.clone(), || Ok(aff(x, y))),
+                1 => ElementVar::new_witness(cs.clone(), || Ok(proj(x, y, &n(1)))),
+                _ => ElementVar::new_witness(cs.clone(), || Ok(proj(x, y, &n(7)))),
+            };
+            let sat = r.is_ok() && cs.is_satisfied().unwrap();
+            match want {
+                None => cx.eq("coordinates outside the group must not satisfy the constraints", &d, sat, false),
+                Some(e) => {
+                    cx.eq("a representative of a group element is accepted", &d, sat, true);
+                    if let Ok(v) = &r {
+                        cx.eq("witnessed variable equals the element", &d, v.value().unwrap() == *e, true);
+                        cx.eq("witnessed variable encodes like the element", &d, val(&v.compress_to_field().unwrap().value().unwrap()), val(&e.vartime_compress_to_field()));
+                    }
+                }
+            }
+        }
+    }
+}
